@@ -34,7 +34,19 @@ static unsigned long g_lookup_len;
 #include "lowered.c"
 #endif
 typedef struct JsonDeserializer_StubReader JD;
+#ifdef FILTER_ALLOWALL
+typedef struct AllowAllFilter Filter;   /* the unfiltered instantiation: every answer is the constant true (real code) */
+#define PARSEVARIANT JsonDeserializer_StubReader__parseVariant_AllowAllFilter
+#define PARSEARRAY JsonDeserializer_StubReader__parseArray_AllowAllFilter
+#define PARSEOBJECT JsonDeserializer_StubReader__parseObject_AllowAllFilter
+#define FTOKEN(f) g_child_filter_token
+#else
 typedef struct DeserializationOption__Filter Filter;
+#define PARSEVARIANT JsonDeserializer_StubReader__parseVariant_DeserializationOption__Filter
+#define PARSEARRAY JsonDeserializer_StubReader__parseArray_DeserializationOption__Filter
+#define PARSEOBJECT JsonDeserializer_StubReader__parseObject_DeserializationOption__Filter
+#define FTOKEN(f) ((f).variant_.data_)
+#endif
 typedef struct DeserializationOption__NestingLimit NL;
 
 int StubReader__read(struct StubReader *self) {
@@ -86,11 +98,11 @@ unsigned int JsonDeserializer_StubReader__skipSpacesAndComments(JD *self) {
 }
 /* parseVariant / skipVariant as CHILDREN [contract proved: jsonnest/parseVariant_*, skipVariant]: require SAFE and the
  * decremented limit; Ok => SAFE. */
-unsigned int JsonDeserializer_StubReader__parseVariant_DeserializationOption__Filter(JD *self, struct VariantData *variant, Filter filter, NL nl) {
+unsigned int PARSEVARIANT(JD *self, struct VariantData *variant, Filter filter, NL nl) {
   CHECK(SAFE(self), "child parseVariant precondition: SAFE");
   CHECK(nl.value_ == g_child_limit, "C15: the child receives nestingLimit-1");
   CHECK(variant != 0 && variant == g_last_added, "C01/C03: the child parses into exactly the slot just added or found (never null)");
-  CHECK(filter.variant_.data_ == g_child_filter_token, "C11: the child receives the sub-filter selected for it");
+  CHECK(FTOKEN(filter) == g_child_filter_token, "C11: the child receives the sub-filter selected for it");
   g_child_parse_calls++;
   if (g_unparsed_adds) g_unparsed_adds--;
   unsigned err = pick_err();
@@ -127,6 +139,7 @@ unsigned int JsonDeserializer_StubReader__skipKey(JD *self) {
   return err;
 }
 
+#ifndef FILTER_ALLOWALL
 /* ---- filter by contract: a filter is an abstract token (variant_.data_); answers are fixed per token ---- */
 static unsigned tok(const Filter *f) { return (unsigned)((uintptr_t)f->variant_.data_ & 3); }
 _Bool DeserializationOption__Filter__allow(Filter *self) { return g_allow[tok(self)]; }
@@ -137,7 +150,7 @@ Filter DeserializationOption__Filter__op_index_ulong(Filter *self, unsigned long
   r.variant_.data_ = g_child_filter_token;
   return r;
 }
-Filter DeserializationOption__Filter__op_index_char_p(Filter *self, char **key) {
+Filter DeserializationOption__Filter__op_index_constchar_p(Filter *self, char **key) {
   g_indexkey_calls++;
   g_indexkey_arg = *key;
   Filter r = *self;
@@ -145,6 +158,7 @@ Filter DeserializationOption__Filter__op_index_char_p(Filter *self, char **key) 
   return r;
 }
 
+#endif
 /* ---- document side ---- */
 static struct VariantData g_slots[3];
 struct VariantData *ArrayData__addElement__ResourceManager_p(struct ArrayData *self, struct ResourceManager *r) {
@@ -208,13 +222,21 @@ static JD *mk(char first) {
   g_last_stub_err = 0; g_stub_failed = 0; g_last_added = 0; g_store_failed = 0; g_unparsed_adds = 0;
   g_deref_calls = 0; g_deref_arg = 0; g_addmember_failed = 0;
   g_index0_calls = g_indexkey_calls = 0; g_indexkey_arg = 0; g_save_calls = g_getmember_calls = g_addmember_calls = g_clear_calls = 0; g_lookup_len = 0;
+#ifdef FILTER_ALLOWALL
+  g_allow[0] = g_allow[1] = g_allow[2] = g_allow[3] = 1;
+#else
   g_allow[0] = in_bool(); g_allow[1] = in_bool(); g_allow[2] = in_bool(); g_allow[3] = in_bool();
+#endif
   g_member_exists = in_bool();
   g_key_size = in_u8() % 4;
   g_keybuf[0] = in_char(); g_keybuf[1] = in_char(); g_keybuf[2] = in_char(); g_keybuf[3] = 0;
   return d;
 }
+#ifdef FILTER_ALLOWALL
+static Filter mk_filter(unsigned token) { Filter f; memset(&f, 0, sizeof f); (void)token; return f; }
+#else
 static Filter mk_filter(unsigned token) { Filter f; memset(&f, 0, sizeof f); f.variant_.data_ = (void *)(uintptr_t)(0x1000 + token); return f; }
+#endif
 #define CODES_OK(err) ((err) <= TooDeep)
 
 /* =========================================== arrays ================================================================= */
@@ -238,7 +260,9 @@ static void array_post(JD *d, unsigned err, unsigned char limit, _Bool filtered)
           "C10: ... for a byte that is neither ',' nor ']' after a value (the byte is not consumed)");
   }
   CHECK(g_unparsed_adds == 0 || err != Ok, "C01: on Ok every added element was parsed");
+#ifndef FILTER_ALLOWALL
   if (filtered) CHECK(g_index0_calls <= 1, "the element filter is selected once");
+#endif
 }
 void h_parseArray(void) {
   JD *d = mk('[');
@@ -249,8 +273,11 @@ void h_parseArray(void) {
   g_child_limit = (unsigned char)(limit - 1);
   Filter f = mk_filter(1);
   g_child_filter_token = (void *)(uintptr_t)(0x1000 + 2);
-  unsigned err = JsonDeserializer_StubReader__parseArray_DeserializationOption__Filter(d, &arr, f, nl);
-  COVER(err == Ok && g_child_parse_calls >= 1); COVER(err == Ok && g_child_skip_calls >= 1); COVER(err == Ok && g_spaces_calls == 1);
+  unsigned err = PARSEARRAY(d, &arr, f, nl);
+  COVER(err == Ok && g_child_parse_calls >= 1); COVER(err == Ok && g_spaces_calls == 1);
+#ifndef FILTER_ALLOWALL
+  COVER(err == Ok && g_child_skip_calls >= 1);
+#endif
   COVER(err == TooDeep && limit == 0); COVER(err == InvalidInput && !g_stub_failed); COVER(err == NoMemory && g_store_failed);
   array_post(d, err, limit, 1);
   if (limit != 0) {
@@ -307,14 +334,19 @@ void h_parseObject(void) {
   g_child_limit = (unsigned char)(limit - 1);
   Filter f = mk_filter(1);
   g_child_filter_token = (void *)(uintptr_t)(0x1000 + 2);
-  unsigned err = JsonDeserializer_StubReader__parseObject_DeserializationOption__Filter(d, &obj, f, nl);
-  COVER(err == Ok && g_child_parse_calls >= 1 && g_addmember_calls >= 1); COVER(err == Ok && g_clear_calls >= 1); COVER(err == Ok && g_child_skip_calls >= 1);
+  unsigned err = PARSEOBJECT(d, &obj, f, nl);
+  COVER(err == Ok && g_child_parse_calls >= 1 && g_addmember_calls >= 1); COVER(err == Ok && g_clear_calls >= 1);
+#ifndef FILTER_ALLOWALL
+  COVER(err == Ok && g_child_skip_calls >= 1);
+#endif
   COVER(err == Ok && g_key_calls == 0); COVER(err == TooDeep && limit == 0); COVER(err == InvalidInput && !g_stub_failed); COVER(err == NoMemory && g_store_failed);
   object_post(d, err, limit);
   if (limit != 0) {
     CHECK(g_allow[2] || (g_child_parse_calls == 0 && g_add_n == 0 && g_getmember_calls == 0 && g_save_calls == 0), "C11/C06: excluded members are skipped and nothing is stored or looked up for them");
     CHECK(!g_allow[2] || g_child_skip_calls == 0, "C11: kept members are parsed");
+#ifndef FILTER_ALLOWALL
     CHECK(g_indexkey_calls == 0 || g_indexkey_arg == g_keybuf, "C11: the member filter is selected with the parsed key");
+#endif
     CHECK(g_addmember_calls == g_save_calls, "C01: the key is saved exactly when a new member is added");
     /* C06/C19: save() took a reference on the key string; if the member cannot be added it must be given back, otherwise
      * repeated failures make the reference count wrap */
